@@ -26,6 +26,7 @@ type c16Input struct {
 	Disabled  bool   `json:"disabled,omitempty"`             // the templated process is disabled: true (it can be started by hand)
 	Nested    bool   `json:"nested_var,omitempty"`           // a process variable whose value is a mapping, used as {{.DB.host}}
 	NameKey   bool   `json:"name_key,omitempty"`             // the process entry carries a name: key that differs from its key under processes:
+	Split     bool   `json:"split,omitempty"`                // a second file mentions the processes again without setting anything (is_tty: false)
 	Flags     string `json:"flags,omitempty"`                // further options of the templated process that do not change what is rendered
 	Mode      string `json:"map_order"`
 }
@@ -205,6 +206,9 @@ func c16E2(tier string, o *E2Out) {
 						in5 := in
 						in5.NameKey = true
 						c16One(o, dir, in5, false)
+						in6 := in
+						in6.Split = true
+						c16One(o, dir, in6, false)
 						for _, fl := range []string{"is_foreground", "is_daemon", "is_tty"} {
 							in3 := in
 							in3.Flags = fl
@@ -226,6 +230,12 @@ func c16E2(tier string, o *E2Out) {
 
 func c16One(o *E2Out, dir string, in c16Input, full bool) {
 	files := map[string]string{"pc.yaml": in.yaml()}
+	names := []string{"pc.yaml"}
+	if in.Split {
+		// the defaults fill in what no file configures; a later file that mentions a process changes nothing else
+		files["over.yaml"] = "version: \"0.5\"\nprocesses:\n  w:\n    is_tty: false\n  k:\n    is_tty: false\n  y:\n    is_tty: false\n"
+		names = append(names, "over.yaml")
+	}
 	var base *permRecorder
 	var baseView string
 	eval := func(m permMode) {
@@ -236,7 +246,7 @@ func c16One(o *E2Out, dir string, in c16Input, full bool) {
 		}
 		var prj *types.Project
 		var err error
-		rec := withPerm(m, func() { prj, err = loadFiles(dir, files, []string{"pc.yaml"}, false) })
+		rec := withPerm(m, func() { prj, err = loadFiles(dir, files, names, false) })
 		if err != nil {
 			o.violation("C16", "load-error", fmt.Sprintf("valid file does not load: %v", err), in)
 			return
